@@ -383,7 +383,8 @@ func (c cfgSub) reify(opts *options) (interface{}, error) {
 		return nil, nil
 	case len(fields) > 0 && len(arr) == 0:
 		m := make(map[string]interface{})
-		for k, v := range fields {
+		for _, k := range sortedKeys(fields) {
+			v := fields[k]
 			opts.activeFields = newFieldSet(parentFields)
 			var err error
 			if m[k], err = v.reify(opts); err != nil {
@@ -403,7 +404,8 @@ func (c cfgSub) reify(opts *options) (interface{}, error) {
 		return m, nil
 	default:
 		m := make(map[string]interface{})
-		for k, v := range fields {
+		for _, k := range sortedKeys(fields) {
+			v := fields[k]
 			opts.activeFields = newFieldSet(parentFields)
 			var err error
 			if m[k], err = v.reify(opts); err != nil {
